@@ -11,14 +11,21 @@ Conventions of the oracle (where the statement is silent it accepts anything):
   * an option whose pending value equals what Tor already holds MAY be named or omitted
     (assigning the same value / a mutation that was reverted is not clearly "a change");
   * in-place operations are always done the documented way, on a fresh read
-    (`conf.Opt.append(x)`), with arguments valid for the list that was read;
-  * if a list option is assigned and then mutated through a read BEFORE any acknowledged or
-    rejected save made reads and pending value coincide ("divergent" state: the read still shows
-    Tor's value, not the assigned one), any of {assigned value, op(assigned), op(read)} is accepted;
+    (`conf.Opt.append(x)`), with arguments valid for the list that was read; operations that do
+    not alter the list are skipped;
+  * when the list that is read differs from the pending value (a list was assigned and the option
+    is mutated through a read before any save), both op(pending) and op(read) are admissible --
+    but not the bare assigned value: an in-place mutation is a change and must not be lost
+    (signature `...:list_assigned_then_mutated_before_save`);
+  * comma-separated list types: `K=a,b` and `K=a K=b` are the same value;
   * a clearing entry is `Key`, `Key=` or `Key=""`;
   * reads are checked only after an acknowledged save, against the scripted Tor's store (which was
     filled from the wire bytes by the independent parser), modulo the declared type's
-    representation (Boolean 1/True, Boolean+Auto auto/-1, Integer 5/'5', CommaList 'a,b'/[a,b]).
+    representation (Boolean 1/True, Boolean+Auto auto/-1, Integer 5/'5', CommaList 'a,b'/[a,b]);
+    not for an option whose SETCONF entries were already reported (consequence);
+  * only first failures: a history stops at the first step that produced a violation;
+  * a violation seen against a Tor that emits CONF_CHANGED is keyed `...+conf_changed_events` only
+    if the same history without the events does not show it.
 """
 from twin import control_session  # noqa: F401  (first: silences twisted logging)
 import itertools
@@ -864,8 +871,6 @@ def plan(tier):
         # spelling / CONF_CHANGED variants
         for t in ('LineList', 'CommaList') + REP_SCALARS:
             rows.append((t, 0, True, 1, 2, 'exact', True))
-        for t in ('LineList', 'CommaList'):
-            rows.append((t, 0, True, 3, 3, 'exact', True))
         rows.append(('LineList', 0, True, 3, 3, 'lower', False))
         for t in ('String', 'Boolean'):
             rows.append((t, 0, True, 3, 3, 'exact', False))
@@ -899,9 +904,35 @@ def plan(tier):
     return rows
 
 
+def patterns(typ):
+    """structured length-3 families for a list type: change / save (accepted or rejected) / change, in every order"""
+    alpha = list_alphabet(typ)
+    sets = [o for o in alpha if o[0] == 'set']
+    muts = [o for o in alpha if o[0] == 'mut']
+    for ev in (False, True):
+        for a in SAVES:
+            for s1 in sets:
+                for m1 in muts:
+                    yield [s1, a, m1], ev
+            for m1 in muts:
+                for m2 in muts:
+                    yield [m1, a, m2], ev
+        if ev:
+            continue
+        for s1 in sets:
+            for m1 in muts:
+                for x in SAVES + [o for o in muts if s1[2] == []]:
+                    yield [s1, m1, x], ev
+
+
 def gen_histories(tier, seed):
     rnd = random.Random(seed)
-    thorough = (tier == 'thorough')
+    for (typ, name, kind) in TYPES:
+        if kind != 'list':
+            continue
+        for ops, ev in patterns(typ):
+            yield {'opts': [name], 'init': {name: list(LIST_INITS[typ][0])}, 'ops': [list(o) for o in ops],
+                   'events': ev, 'case': 'exact'}
     for (typ, ii, reduced, lo, hi, case, ev) in plan(tier):
         name = NAME_OF_TYPE[typ]
         init = {name: list(LIST_INITS[typ][ii])} if KIND_OF[name] == 'list' else {}
@@ -936,6 +967,7 @@ def twin(tier, seed):
     distinct = set()
     samples = []
     violations = {}
+    counts = {}
     truncated = False
     for h in gen_histories(tier, seed):
         if time.time() - t0 > budget:
@@ -949,6 +981,7 @@ def twin(tier, seed):
                 samples.append(h)
         for x in v:
             # one representative (the shortest history) per key
+            counts[x['key']] = counts.get(x['key'], 0) + 1
             old = violations.get(x['key'])
             if old is None or len(x['history']['ops']) < len(old['history']['ops']):
                 violations[x['key']] = x
@@ -959,15 +992,16 @@ def twin(tier, seed):
         'evaluations': evaluations,
         'distinct_nontrivial': len(distinct),
         'samples': samples[:3],
-        'violations': [violations[k] for k in sorted(violations)],
+        'violations': [dict(violations[k], occurrences=counts[k]) for k in sorted(violations)],
         'rule': ('a case is a history (option(s) with their declared type, initial value in the scripted Tor, sequence of '
                  'assign / append / extend / insert / remove / pop / setitem / save-accepted / save-rejected, attribute '
                  'spelling, whether Tor emits CONF_CHANGED) run on a real TorConfig+TorControlProtocol against the scripted '
-                 'Tor, always closed by an accepted save and a second save; exhaustive short sequences per declared type, '
+                 'Tor, always closed by an accepted save and a second save; one representative (shortest history) per violation '
+                 'key with its number of occurrences; structured families and exhaustive short sequences per declared type, '
                  'then seeded random histories over 1-3 options. Non-trivial = at least one SETCONF was produced and its '
                  'content checked against the oracle; distinct = distinct (options, initial values, op sequence, events, '
                  'spelling).'),
-        'bounds': ('tier %s, seed %d: 16 declared types; scalars exhaustive to length %s, lists to length %s over an alphabet '
+        'bounds': ('tier %s, seed %d: 16 declared types; for each list type 413 structured change/save/change histories; scalars exhaustive to length %s, lists to length %s over an alphabet '
                    'of 13 ops and up to 3 initial values, spelling/CONF_CHANGED variants to length 2-3, %d random histories of '
                    '4-12 ops over 1-3 options%s'
                    % (tier, seed, '4-5' if tier == 'thorough' else '2-3', '3-4' if tier == 'thorough' else '1-3',
